@@ -50,7 +50,10 @@ def setup_worker(tier):
 
 def gen_case(rng, tier, index):
     from .. import gen_rewrite
-    g = gen_rewrite.Gen(rng, tier)
+    # (patches that add data to other sections are left to C01-C04: where a
+    # new interval lands relative to the end of a section differs between
+    # one and several contexts without any listing position changing)
+    g = gen_rewrite.Gen(rng, tier, other_sections=False)
     g.module()
     if index % 2 == 0:
         g.one_per_block = True
@@ -253,6 +256,12 @@ def facets(case, bu):
             name = name.rsplit("_", 1)[0]
         for g in gots:
             if g[0] == "pos":
+                if g[3] is not None:
+                    # in an interval the rewrite added: its place among the
+                    # other new intervals is arbitrary
+                    syms.add((name, "new-interval", ob.sec_names[g[1]],
+                              g[3].hex()))
+                    continue
                 syms.add((name, "pos", g[1], g[2]))
             elif g[0] == "proxy":
                 pname.setdefault(g[1], set()).add(name)
